@@ -2,7 +2,7 @@
    Statements only; proofs in Proofs/EditProofs.v.  The model of construction is
    [Wire.HeaderEdit.build] followed by the specification encoder; the
    DBusTypeWriter is tied to it byte-for-byte by the correspondence run. *)
-From DV Require Import Lib.Base Spec.Codec Wire.HeaderEdit Proofs.EditProofs Proofs.CodecWf Proofs.CodecRoundtrip Proofs.CodecMessage Proofs.SigRoundtrip.
+From DV Require Import Lib.Base Spec.Codec Wire.HeaderEdit Proofs.EditProofs Proofs.CodecWf Proofs.CodecRoundtrip Proofs.CodecMessage Proofs.SigRoundtrip Proofs.Utf8Proofs Proofs.BodySound Proofs.WireClean.
 Local Open Scope N_scope.
 
 (* THE ROUND TRIP, message level: the specification decoder applied to the
@@ -86,6 +86,27 @@ Theorem C02_body_roundtrip : forall le vs pos rest, wfsb le vs 0 pos = true ->
   dec_seq le (map ty_of_val vs) pos (encs le vs pos ++ rest) = Some (vs, pos + nlen (encs le vs pos), rest).
 Proof. exact dec_seq_encs. Qed.
 Print Assumptions C02_body_roundtrip.
+
+(* the converse direction (Proofs/WireClean.v): whatever the specification decoder returns re-encodes to exactly the
+   bytes it consumed, is well formed and has the requested type -- so decoding and encoding are mutually inverse
+   bijections between well-formed values and their canonical encodings (no information is lost or invented in
+   either direction) *)
+Theorem C02_value_decode_encode : forall le d t depth pos data v pos' rest, tygood t = true -> all_bytes data = true ->
+  dec le d t depth pos data = Some (v, pos', rest) ->
+  ty_of_val v = t /\ wfb le depth pos v = true /\ data = enc le v pos ++ rest /\ pos' = pos + nlen (enc le v pos).
+Proof. exact dec_sound. Qed.
+Print Assumptions C02_value_decode_encode.
+
+Theorem C02_body_decode_encode : forall le ts pos data vs pos' rest, forallb tygood ts = true -> all_bytes data = true ->
+  dec_seq le ts pos data = Some (vs, pos', rest) ->
+  map ty_of_val vs = ts /\ wfsb le vs 0 pos = true /\ data = encs le vs pos ++ rest /\ pos' = pos + nlen (encs le vs pos).
+Proof. exact dec_seq_sound. Qed.
+Print Assumptions C02_body_decode_encode.
+
+Theorem C02_message_decode_encode : forall d m, all_bytes d = true ->
+  (spec_decode_message d = Some (m, nlen d) <-> d = spec_encode_message m /\ wf_msg m = true).
+Proof. exact spec_decode_iff. Qed.
+Print Assumptions C02_message_decode_encode.
 
 (* non-vacuity of the well-formedness premise: containers, variants, both byte orders *)
 Definition ex_val : val :=
